@@ -105,7 +105,7 @@ def run_unit(unit, progress):
         for pi, pol in enumerate(pols):
             hows = HOWS if pi == 0 else [HOWS[(i + pi) % 4]]
             for how in hows:
-                rt, out, _e, _r = tl.execute(prog, how, pol, cs, MONITORS, rrt_exp=exp_rrt)
+                rt, out, _e, _r = tl.execute(prog, how, pol, cs, MONITORS, rrt_exp=exp_rrt, keep_deps=(i + pi) % 4 == 3)
                 res["evaluations"] += 1
                 tl.harvest(rt, c)
                 fs = tuple(ev[2] for ev in rt.log if ev[0] == "flush_body")
